@@ -4,9 +4,9 @@ import Cjet.Http
 Driver for component `http` (property C13): the lifecycle model `Cjet.Http` on event scripts.
 One op per line on stdin:
 
-    new <fixed|original|beforeF54> <#other peers> <#other connections>
+    new <fixed|original|beforeF54|beforeF55> <#other peers> <#other connections>
     accept <ok|prepare|connmem|bsmem|add>
-    startline <parsedAll> <handlerFound> <urlValid> <ok|peermem|tablemem>      (Bools as 0/1)
+    startline <parsedAll> <handlerFound> <urlValid> <headerData> <ok|peermem|tablemem>   (Bools as 0/1)
     headerline <parsedAll> <upgradeNow> <none|ok|fail>
     eof | readerror | toolong | wsend | term
 
@@ -91,15 +91,15 @@ def parseEvent (ws : List String) : Option Event :=
   | ["accept", "connmem"] => some (.accept .noConnMem)
   | ["accept", "bsmem"] => some (.accept .noBsMem)
   | ["accept", "add"] => some (.accept .addFails)
-  | ["startline", p, f, u, c] =>
-    match parseBool p, parseBool f, parseBool u with
-    | some p, some f, some u =>
+  | ["startline", p, f, u, d, c] =>
+    match parseBool p, parseBool f, parseBool u, parseBool d with
+    | some p, some f, some u, some d =>
       (match c with
         | "ok" => some Create.ok
         | "peermem" => some Create.noPeerMem
         | "tablemem" => some Create.noTableMem
-        | _ => none).map (Event.startLine p f u)
-    | _, _, _ => none
+        | _ => none).map (Event.startLine p f u d)
+    | _, _, _, _ => none
   | ["headerline", p, u, w] =>
     match parseBool p, parseBool u with
     | some p, some u =>
@@ -126,7 +126,7 @@ def stepLine (d : DSt) (line : String) : DSt × List String :=
   match words line with
   | ["new", v, o, c] =>
     let ver := if v == "original" then some original else if v == "beforeF54" then some beforeF54
-      else if v == "fixed" then some fixed else none
+      else if v == "beforeF55" then some beforeF55 else if v == "fixed" then some fixed else none
     match ver, o.toNat?, c.toNat? with
     | some ver, some o, some c =>
       let s := before (List.range o) (List.range c)
